@@ -127,7 +127,7 @@ Qed.
 
 Lemma wrap_paren_reify fm en pc c : js_ok en c -> wrap_paren (reify_e en pc c) (pp_js (to_js fm en c)) = js_cond fm en c.
 Proof.
-  destruct c as [n|k|n|i|i|n|n|o x y|x|x|f args|f args|l|l|fam pid x|pid it mn|tk ti|tn|an ax|kn]; intros Hok; unfold js_cond; cbn [reify_e]; try reflexivity.
+  destruct c as [n|k|n|i|i|n|n|o x y|x|x|f args|f args|l|l|fam pid x|pid it mn|tk ti|tn|an ax|kn|fx]; intros Hok; unfold js_cond; cbn [reify_e]; try reflexivity.
   - destruct (nth k (e_consts en) (CInt 0)); reflexivity.
   - cbn [js_ok] in Hok. destruct (nth i (e_locals en) (Leaf KLocal "" 0 true)); try contradiction. reflexivity.
   - destruct o; unfold wrap_paren; cbn [to_js js_binop pp_js]; rewrite ?starts_with_paren; reflexivity.
